@@ -73,19 +73,31 @@ def register_loops(I, loops: DictV):
     for key, spec in loops.pairs:
         is_comp = len(key) == 3 and key[1] == "comp"
         qual, ordinal = key[0], key[-1]
-        f = I.world.funcs_by_qualname.get(qual)
+        # "pkg.mod.Class.method/inner": a function defined inside the method
+        outer, *inner = qual.split("/")
+        f = I.world.funcs_by_qualname.get(outer)
         if f is None:
             raise VCError(f"loop contract for unknown function {qual}")
-        nodes = comp_nodes(f.node) if is_comp else loop_nodes(f.node)
+        fnode = f.node
+        for nm in inner:
+            found = [n for n in ast.walk(fnode) if isinstance(n, (ast.FunctionDef, ast.AsyncFunctionDef)) and n.name == nm and n is not fnode]
+            if len(found) != 1:
+                fnode = None
+                break
+            fnode = found[0]
+        if fnode is None:
+            I.world.broken_loops[outer] = f"loop contract {qual}: the inner function is gone"
+            continue
+        nodes = comp_nodes(fnode) if is_comp else loop_nodes(fnode)
         if ordinal >= len(nodes):
             # the loop the contract speaks about is gone: the function can no longer be
             # verified deductively (bounded stand-in takes over), see Interp.call_function
-            I.world.broken_loops[qual] = f"loop contract {qual}#{ordinal} cannot be attached: the function has only {len(nodes)} loops"
+            I.world.broken_loops[outer] = f"loop contract {qual}#{ordinal} cannot be attached: the function has only {len(nodes)} loops"
             continue
         if not isinstance(spec, DictV):
             raise VCError("loop contract must be a dict")
         d = {k: v for k, v in spec.pairs}
-        d["name"] = f"{qual.split('.', 2)[-1]}.{'comp' if is_comp else 'loop'}{ordinal}"
+        d["name"] = f"{qual.split('.', 2)[-1].replace('/', '.')}.{'comp' if is_comp else 'loop'}{ordinal}"
         I.world.loopspecs[id(nodes[ordinal])] = d
 
 
@@ -455,8 +467,8 @@ def cut_comprehension(I, node, env, spec):
     name = spec["name"]
     where = I.where(node)
     g = node.generators[0]
-    if len(node.generators) != 1 or g.ifs:
-        raise OutsideSubset(f"comprehension contract {name}: only a single generator without conditions is supported")
+    if len(node.generators) != 1:
+        raise OutsideSubset(f"comprehension contract {name}: only a single generator is supported")
     seq = deref(I.eval(g.iter, env))
     from .values import LazySetV
 
@@ -496,8 +508,13 @@ def cut_comprehension(I, node, env, spec):
             both[kk] = vv
         if head is not None:
             _hook(I, head, [vc, _vars_dict(I, env, both), True])
-        elt = I.eval(node.elt, cenv)
-        both["$elt"] = elt
+        included = True
+        for cond in g.ifs:
+            if not I.truthy(I.eval(cond, cenv), cond):
+                included = False
+                break
+        both["$included"] = included
+        both["$elt"] = I.eval(node.elt, cenv) if included else None
         both["$k"] = mk_int(k + 1)
         if post is not None:
             _hook(I, post, [vc, _vars_dict(I, env, both)])
@@ -506,7 +523,19 @@ def cut_comprehension(I, node, env, spec):
         ctx.cover(f"{name}.iteration")
         raise CutSig(name)
     ctx.assume(k == zint(int_term(n)))
+    m = int_term(n) if isinstance(int_term(n), int) else zint(int_term(n))
+    if g.ifs:
+        # a filtered comprehension keeps some of the elements: 0 <= len(result) <= n; the
+        # exit hook may relate it to its model of the filter ("$result_len")
+        m = ctx.fresh_int(f"{name}.result_len")
+        ctx.assume(z3.And(m >= 0, m <= zint(int_term(n))))
+        extra = dict(extra)
+        extra["$result_len"] = SInt(m)
     if head is not None:
         _hook(I, head, [vc, _vars_dict(I, env, extra), False])
     f = z3.Function(ctx.fresh_name(f"{name}.result"), z3.IntSort(), ObjSort)
-    return SymListV(SeqV(int_term(n) if isinstance(int_term(n), int) else zint(int_term(n)), lambda i, f=f: Opaque(f(zint(i)), "elem"), "list", ident=ctx.fresh_name(name)))
+    res = SymListV(SeqV(m, lambda i, f=f: Opaque(f(zint(i)), "elem"), "list", ident=ctx.fresh_name(name)))
+    result_hook = spec.get("result")
+    if result_hook is not None:
+        _hook(I, result_hook, [vc, res])
+    return res
